@@ -5,18 +5,19 @@ import os
 
 VERIF = os.path.dirname(os.path.dirname(os.path.abspath(__file__)))
 
-# property -> (technique, level text, level note, design ref)
-CLAIMED = {
-    "C08": ("TLA+ machines of the five matchers model-checked by TLC against Occ(p,t); traces of the real matchers "
-            "validated by TLC against the same definition",
-            "TLC exhausts all patterns/texts over 2 symbols up to the (scaled) word size for five matcher machines "
-            "shaped like the code (registers, windows, tables, progress), and every recorded find_all of the real "
-            "matchers (exhaustive small + word-size boundaries + periodic/random over all bytes) must equal the "
-            "specification's Occ(p,t)",
-            "bounded: MC over W=4, |t|<=6/8; implementation side covers |p|<=70, |t|<=300; TLC's evaluator and "
-            "the JSON projection of the harness are trusted",
-            "sec. 5 C08"),
-}
+import importlib
+import sys
+
+sys.path.insert(0, os.path.dirname(os.path.abspath(__file__)))
+
+# every tools/props/Cxx.py exports MANIFEST = dict(technique, text, note, ref)
+CLAIMED = {}
+for fn in sorted(os.listdir(os.path.join(VERIF, "tools", "props"))):
+    if fn.startswith("C") and fn.endswith(".py"):
+        m = importlib.import_module("props." + fn[:-3])
+        if getattr(m, "MANIFEST", None):
+            d = m.MANIFEST
+            CLAIMED[fn[:-3]] = (d["technique"], d["text"], d["note"], d["ref"])
 
 NOT_YET = "no specification-bound check has been built for it yet (work in progress; see DESIGN.md sec. 5 for the plan)"
 
